@@ -308,6 +308,7 @@ def check_level_induction(chk, project, tdir, neq, fields):
             t1 = time.time()
             r = str(s.check(bad))
             chk.solver_s += time.time() - t1
+            chk.xc.sample(s, [bad], r, name)
             if expect == "unsat":
                 if r == "unsat":
                     chk.ok(name)
@@ -456,6 +457,7 @@ def check_solve(chk, project, tdir, neq, fields):
         t1 = time.time()
         r = str(s.check(bad))
         chk.solver_s += time.time() - t1
+        chk.xc.sample(s, [bad], r, name)
         if expect == "unsat":
             if r == "unsat":
                 chk.ok(name)
@@ -912,6 +914,7 @@ def validate_traces(chk, project, tdir, n):
 
 def main(pid, tier):
     chk = Check("C19", tier)
+    chk.xc.__init__(every=10 if tier == "thorough" else 25, first=2, cap=25 if tier == "thorough" else 6, tlimit_ms=30_000)
     chk.assumptions = [
         "integrator contract (stub): CVode(tout) returns an arbitrary int flag and time t; flag>=0 => t=tout; flag<0 => t_cur<=t<tout; the state is the exact solution at the returned time (modelled as y(t)=y0+t)",
         "CVodeReInit returns an arbitrary flag and resets the integrator clock; all CVodeSet*/Init calls return arbitrary flags",
